@@ -165,7 +165,8 @@ def check_valid(hyps, goal, timeout_ms=None):
 def has_quant(t, _cache={}):
     """Does the term contain a quantifier (or a lambda)?"""
     key = t.get_id()
-    r = _cache.get(key)
+    hit = _cache.get(key)
+    r = hit[0] if hit is not None else None  # the cached term is kept alive, so its id cannot be reused
     if r is None:
         r = False
         stack = [t]
@@ -181,7 +182,7 @@ def has_quant(t, _cache={}):
             stack.extend(x.children())
         if len(_cache) > 200000:
             _cache.clear()
-        _cache[key] = r
+        _cache[key] = (r, t)
     return r
 
 
@@ -307,8 +308,9 @@ class Ctx:
         if isinstance(goal, bool):
             status, backend, secs, model = ("discharged" if goal else "refuted"), "eval", 0.0, None
             if not goal:
-                # the goal is literally False on a feasible path
-                if not self.feasible():
+                # the goal is literally False: it holds only if the path is infeasible
+                st2 = check_valid(self.pc, z3.BoolVal(False), timeout_ms=4000)[0] if any(has_quant(c) for c in self.pc) else "refuted"
+                if not self.feasible() or st2 == "discharged":
                     status = "discharged"
                 else:
                     s = z3.Solver()
